@@ -65,6 +65,32 @@
         std::mem::forget((m, l));
     }
 
+    /// C06: a leader that has no fetch of its own and was donated none asks the table under its OWN id: it then takes its
+    /// waiters (to answer them with the lookup result) and the entry is gone, closed; a foreign id gets nothing.
+    #[kani::proof]
+    #[kani::unwind(3)]
+    fn leader_without_fetch_takes_its_waiters_by_its_own_id() {
+        let mut m = VM::new();
+        let hash: u64 = kani::any();
+        let key: u8 = kani::any();
+        let (id, close) = lead(&mut m, hash, &key).unwrap();
+        let other: usize = kani::any();
+        kani::assume(other != id);
+        let r0 = m.fetch_or_take::<u8, ()>(hash, &key, other);
+        assert!(r0.is_none(), "[fetch_or_take_with_a_foreign_id_gets_nothing]");
+        assert!(!close.load(Ordering::Relaxed), "[foreign_id_does_not_close]");
+        std::mem::forget(r0);
+        let r = m.fetch_or_take::<u8, ()>(hash, &key, id);
+        match r {
+            Some(FetchOrTake::Notifiers(n)) => { assert!(n.len() == 1, "[leader_without_any_fetch_takes_every_waiter]"); std::mem::forget(n); }
+            Some(FetchOrTake::Fetch(f)) => { assert!(false, "[no_fetch_was_donated_so_none_is_returned]"); std::mem::forget(f); }
+            None => assert!(false, "[own_id_finds_its_registration]"),
+        }
+        assert!(close.load(Ordering::Relaxed), "[taking_the_waiters_closes_the_entry]");
+        assert!(lead(&mut m, hash, &key).is_some(), "[entry_is_gone_so_the_next_caller_leads_again]");
+        std::mem::forget(m); std::mem::forget(close);
+    }
+
     /// id-guarded take (error / drop paths): a stale leader cannot take a newer registration.
     #[kani::proof]
     #[kani::unwind(3)]
